@@ -291,10 +291,12 @@ fn parent(id: &str, tier: Tier) {
 
     // health checks
     let nt = rep.nontrivial.len() as u64;
-    if rep.evaluations > 0 && (nt as f64) < meta.nontrivial_floor * rep.evaluations as f64 && rep.violations.is_empty() {
+    // the distinct set is capped per worker; the health check uses the uncapped count of non-trivial evaluations
+    let nt_health = nt.max(rep.nontrivial_evals);
+    if rep.evaluations > 0 && (nt_health as f64) < meta.nontrivial_floor * rep.evaluations as f64 && rep.violations.is_empty() {
         rep.inconclusive.push(format!(
             "non-trivial fraction {}/{} below floor {}",
-            nt, rep.evaluations, meta.nontrivial_floor
+            nt_health, rep.evaluations, meta.nontrivial_floor
         ));
     }
 
@@ -361,6 +363,7 @@ fn parent(id: &str, tier: Tier) {
             "rule": meta.rule,
             "samples": samples,
             "classes": rep.classes,
+            "nontrivial_evaluations": rep.nontrivial_evals,
             "excluded_known": rep.excluded,
             "exhaustive": rep.exhaustive,
             "notes": rep.notes,
